@@ -1042,7 +1042,13 @@ def install(env: Env) -> None:
     _patch(lp.S3LockProviderBase, "release", s3_release)
     _patch(lp.S3LockProviderBase, "is_held", s3_is_held)
     # the heartbeat thread is replaced by an environment step of the scheduler (Heartbeat = _renew_once)
-    _patch(lp.S3LockProviderBase, "_start_heartbeat", lambda self: env.heartbeats.append(self) if self not in env.heartbeats else None)
+    def _start_hb(self: Any) -> None:
+        me = env.sched.me()
+        self._verif_owner = me.name if me is not None else None      # whose heartbeat thread this would be
+        if self not in env.heartbeats:
+            env.heartbeats.append(self)
+
+    _patch(lp.S3LockProviderBase, "_start_heartbeat", _start_hb)
     _patch(lp.S3LockProviderBase, "_stop_heartbeat_thread", lambda self: env.heartbeats.remove(self) if self in env.heartbeats else None)
 
     # fence (local): is_held() is a flag read; logged so the trace shows the fence was evaluated
